@@ -215,11 +215,38 @@ def check_tournament_canon(ctx, only_rule):
         ctx.check(_size_val(amount), R2, "Tournament/sample-amount", "amount = " + short(amount), fn.at())
         mx = K.calls_of(p, *REDUCERS)
         red_ok = len(mx) == 1 and callee_is(mx[0], "Iterator::max") and mx[0][3][0] == c
+        folded = None
+        if not red_ok and len(mx) == 2 and callee_is(mx[0], "Iterator::next") and callee_is(mx[1], "Iterator::fold") and len(mx[1][3]) == 3:
+            # `max()` spelled out the way core defines it: take the first entrant, then fold the rest keeping the running best
+            # only when it compares Greater than the challenger (ties go to the later one, exactly Iterator::max's rule)
+            nx, fo = mx
+            clo = fo[3][2]
+            okf = K.strip(nx[3][0], calls=()) == c and K.strip(fo[3][0], calls=()) == c and K.strip(fo[3][1], calls=()) == ("field", nx, 0, "Some") and \
+                clo[0] == "agg" and clo[1] == "closure"
+            if okf:
+                from .common import closure_paths
+                qs = [q for q in (closure_paths(ctx, clo, canon=True) or []) if q.end != "unreachable"]
+                keeps = {}
+                okf = bool(qs)
+                for q in qs:
+                    cm_ = [x for x in q.conds if x[0][0] == "discr" and callee_is(x[0][1], "Ord::cmp")]
+                    okf = okf and q.end == "return" and len(cm_) == 1 and len(q.calls()) == 1 and \
+                        [K.strip(a, calls=())[:2] for a in cm_[0][0][1][3]] == [("cparam", 2), ("cparam", 3)] and K.strip(q.ret, calls=())[:2] in (("cparam", 2), ("cparam", 3))
+                    if okf:
+                        keeps[{255: -1, -1: -1, 0: 0, 1: 1}.get(cm_[0][1], cm_[0][1])] = K.strip(q.ret, calls=())[1]
+                okf = okf and keeps == {-1: 3, 0: 3, 1: 2}
+            red_ok = okf
+            if okf:
+                folded = (nx, fo)
         ctx.check(red_ok, R2, "Tournament/reduce-max", "reducers on path: " + ", ".join(short(m, 3) for m in mx), fn.at())
-        if red_ok:
+        if red_ok and folded is None:
             the_max = mx[0]
             pay = K.outcome(p)[1]
             ctx.check(pay == ("field", the_max, 0, "Some") and K.discr_is(p, lambda o: o == the_max, 1), R2, "Tournament/return", short(p.ret, 5), fn.at())
+        elif red_ok:
+            the_max = folded[0]            # the (dead) empty arm is next() == None on the non-empty sample
+            pay = K.outcome(p)[1]
+            ctx.check(pay is not None and K.strip(pay, calls=()) == folded[1] and K.discr_is(p, lambda o: K.strip(o, calls=()) == folded[0], 1), R2, "Tournament/return", short(p.ret, 5), fn.at())
         rl = K.rels(p)
         ctx.check(K.holds(rl, _pop_size, "Ge", _size_val) and not K.holds(rl, _pop_size, "Gt", _size_val), R3, "Tournament/guard-strict-on-success",
                   "; ".join("%s %s %s" % (short(a, 3), K.SYM[o], short(b, 3)) for a, o, b in rl), fn.at(),
